@@ -1821,6 +1821,9 @@ func (x *Exec) exitChecks(cfg *Config, f *Frame, res []Val) {
 	// the state before any of them
 	preGhost := cfg.st.clone()
 	for _, gs := range x.c.GhostSets {
+		if cfg.ghostDone {
+			break // already applied at the Unlock (option ghostsets-at-unlock)
+		}
 		x.applyGhostSetIn(cfg, env, gs, preGhost)
 	}
 	for _, ga := range x.c.GhostAlls {
